@@ -24,11 +24,22 @@ import (
 func init() { register("PowermapFuns", genPowermapFuns) }
 
 type imp struct {
-	res    string          // name of the mutable result variable
-	maps   map[string]bool // map-typed parameters (reads m[k] default to 0)
-	locals map[string]bool
-	ranged []string // ranged maps, in order of the loops
-	err    error
+	res     string          // name of the mutable result variable
+	maps    map[string]bool // map-typed parameters (reads m[k] default to 0)
+	locals  map[string]bool
+	ranged  []string          // ranged maps, in order of the loops
+	slices  map[string]bool   // slice parameters (ranged directly, in order)
+	rename  map[string]string // Go expression text -> Coq name (fields of the receiver, constants)
+	counter bool              // the result is a uint64 counter
+	err     error
+}
+
+func (t *imp) nm(e ast.Expr) string {
+	s := exprText(e)
+	if r, ok := t.rename[s]; ok {
+		return r
+	}
+	return s
 }
 
 func (t *imp) fail(format string, a ...any) string {
@@ -39,6 +50,9 @@ func (t *imp) fail(format string, a ...any) string {
 }
 
 func (t *imp) expr(e ast.Expr) string {
+	if r, ok := t.rename[exprText(e)]; ok {
+		return r
+	}
 	switch x := e.(type) {
 	case *ast.BasicLit:
 		if x.Kind == token.INT {
@@ -103,10 +117,23 @@ func (t *imp) block(ss []ast.Stmt, topLevel bool) string {
 		case *ast.AssignStmt:
 			sb.WriteString(t.assign(s))
 		case *ast.IfStmt:
-			if s.Init != nil || s.Else != nil {
+			if s.Init != nil {
 				return t.fail("unsupported if form")
 			}
-			fmt.Fprintf(&sb, "let %s := if %s then (%s) else %s in\n  ", t.res, t.expr(s.Cond), t.block(s.Body.List, false), t.res)
+			els := t.res
+			if s.Else != nil {
+				eb, ok := s.Else.(*ast.BlockStmt)
+				if !ok {
+					return t.fail("unsupported else form")
+				}
+				els = "(" + t.block(eb.List, false) + ")"
+			}
+			fmt.Fprintf(&sb, "let %s := if %s then (%s) else %s in\n  ", t.res, t.expr(s.Cond), t.block(s.Body.List, false), els)
+		case *ast.IncDecStmt:
+			if !t.counter || exprText(s.X) != t.res || s.Tok != token.INC {
+				return t.fail("unsupported increment")
+			}
+			fmt.Fprintf(&sb, "let %s := (%s + 1) mod 18446744073709551616 in\n  ", t.res, t.res)
 		case *ast.RangeStmt:
 			sb.WriteString(t.rangeLoop(s))
 		case *ast.ExprStmt:
@@ -128,10 +155,16 @@ func (t *imp) assign(s *ast.AssignStmt) string {
 	// _, ok := m[k]
 	if s.Tok == token.DEFINE && len(s.Lhs) == 2 && len(s.Rhs) == 1 {
 		if ix, ok := s.Rhs[0].(*ast.IndexExpr); ok {
-			if id, ok := ix.X.(*ast.Ident); ok && t.maps[id.Name] && exprText(s.Lhs[0]) == "_" {
+			if m := t.nm(ix.X); t.maps[m] {
 				okv := exprText(s.Lhs[1])
 				t.locals[okv] = true
-				return fmt.Sprintf("let %s := amem %s %s in\n  ", okv, id.Name, t.expr(ix.Index))
+				out := fmt.Sprintf("let %s := amem %s %s in\n  ", okv, m, t.expr(ix.Index))
+				if v := exprText(s.Lhs[0]); v != "_" {
+					// the value is only meaningful when ok; the zero value of a key type is empty
+					t.locals[v] = true
+					out += fmt.Sprintf("let %s := match aget %s %s with Some x => x | None => [] end in\n  ", v, m, t.expr(ix.Index))
+				}
+				return out
 			}
 		}
 		return t.fail("unsupported two-value assignment")
@@ -203,9 +236,17 @@ func (t *imp) assign(s *ast.AssignStmt) string {
 }
 
 func (t *imp) rangeLoop(s *ast.RangeStmt) string {
+	if id, ok := s.X.(*ast.Ident); ok && t.slices[id.Name] && s.Tok == token.DEFINE {
+		if (s.Key != nil && exprText(s.Key) != "_") || s.Value == nil {
+			return t.fail("range over a slice: only `for _, x := range` is understood")
+		}
+		el := exprText(s.Value)
+		t.locals[el] = true
+		return fmt.Sprintf("let %s := fold_left (fun %s %s =>\n    %s) %s %s in\n  ", t.res, t.res, el, t.block(s.Body.List, false), id.Name, t.res)
+	}
 	m, ok := s.X.(*ast.Ident)
 	if !ok || !t.maps[m.Name] || s.Tok != token.DEFINE {
-		return t.fail("range over something that is not a map parameter")
+		return t.fail("range over something that is not a map or slice parameter")
 	}
 	t.ranged = append(t.ranged, m.Name)
 	var sb strings.Builder
@@ -230,7 +271,7 @@ func genPowermapFuns(repo string) (string, error) {
 	}
 	var sb strings.Builder
 	sb.WriteString("(* GENERATED by harness/cmd/translate (PowermapFuns) from app/powermap.go - do not edit. *)\n")
-	sb.WriteString("From Coq Require Import List ZArith Bool.\nFrom Verif Require Import Lib.Bytes Lib.Assoc Lib.Sorting Model.Powermap.\nImport ListNotations.\nOpen Scope Z_scope.\n\n")
+	sb.WriteString("From Coq Require Import List ZArith Bool.\nFrom Verif Require Import Lib.Bytes Lib.Assoc Lib.Sorting Model.Powermap Generated.AppConsts.\nImport ListNotations.\nOpen Scope Z_scope.\n\n")
 
 	// SortValidators: sort.Slice(validators, func(i, j int) bool { return bytes.Compare(K(i), K(j)) < 0 })
 	sv := findFunc(f, "SortValidators")
@@ -343,5 +384,46 @@ func genPowermapFuns(repo string) (string, error) {
 		return "", fmt.Errorf("ValidatorUpdates: expected one range loop")
 	}
 	fmt.Fprintf(&sb, "(* Powermap.ValidatorUpdates over an enumeration of the map *)\nDefinition gen_validator_updates (%s enum_%s_1 : powermap) : list (bytes * Z) :=\n  let %s := [] in\n  %s.\n", pm, pm, resName, body2)
+
+	// ShutterApp.makePowermap and countCheckedInKeypers (app.go): loops over a keyper slice
+	fa, _, err := parseFile(repo, "app/app.go")
+	if err != nil {
+		return "", err
+	}
+	for _, spec := range []struct {
+		name, coq, ty string
+		counter       bool
+	}{{"makePowermap", "gen_make_powermap", "powermap", false}, {"countCheckedInKeypers", "gen_count_checked_in", "Z", true}} {
+		fd := findFunc(fa, spec.name)
+		if fd == nil || fd.Recv == nil || len(fd.Recv.List) != 1 || len(fd.Recv.List[0].Names) != 1 ||
+			len(fd.Type.Params.List) != 1 || len(fd.Type.Params.List[0].Names) != 1 || len(fd.Body.List) == 0 {
+			return "", fmt.Errorf("%s: unexpected signature", spec.name)
+		}
+		recv, arg := fd.Recv.List[0].Names[0].Name, fd.Type.Params.List[0].Names[0].Name
+		rn, init := "", ""
+		switch st := fd.Body.List[0].(type) {
+		case *ast.AssignStmt:
+			if st.Tok == token.DEFINE && len(st.Lhs) == 1 && !spec.counter {
+				rn, init = exprText(st.Lhs[0]), ""
+			}
+		case *ast.DeclStmt:
+			if gd, ok := st.Decl.(*ast.GenDecl); ok && gd.Tok == token.VAR && len(gd.Specs) == 1 && spec.counter {
+				if vs, ok := gd.Specs[0].(*ast.ValueSpec); ok && len(vs.Names) == 1 && len(vs.Values) == 0 && exprText(vs.Type) == "uint64" {
+					rn, init = vs.Names[0].Name, "let "+vs.Names[0].Name+" := 0 in\n  "
+				}
+			}
+		}
+		if rn == "" {
+			return "", fmt.Errorf("%s: the first statement does not create the result", spec.name)
+		}
+		ti := &imp{res: rn, maps: map[string]bool{"ids": true}, slices: map[string]bool{arg: true}, locals: map[string]bool{},
+			rename:  map[string]string{recv + ".Identities": "ids", "NonExistentValidator": "gen_nonexistent_validator"},
+			counter: spec.counter}
+		b := ti.block(fd.Body.List, true)
+		if ti.err != nil {
+			return "", fmt.Errorf("%s: %v", spec.name, ti.err)
+		}
+		fmt.Fprintf(&sb, "\n(* ShutterApp.%s; ids = app.Identities *)\nDefinition %s (ids : amap bytes) (%s : list bytes) : %s :=\n  %s%s.\n", spec.name, spec.coq, arg, spec.ty, init, b)
+	}
 	return sb.String(), nil
 }
